@@ -83,6 +83,9 @@ def __getitem__(self, indx):
     obj = Qube.__new__(type(self))
     obj.__init__(result_values, result_mask, example=self)
     obj._readonly_ = self._readonly_
+    if obj._readonly_:              # NumPy may have returned a copy
+        Qube._array_to_readonly(obj._values_)
+        Qube._array_to_readonly(obj._mask_)
 
     # Apply the same indexing to any derivatives
     for (key, deriv) in self._derivs_.items():
